@@ -160,8 +160,6 @@ def run(check):
     r_d.cannot_decide('carbon.conf.Settings.readFrom not found')
   else:
     check.analysed(rf)
-    from ..paths import PathExec
-    from ..symeval import show
     grf = cx.cfg(rf)
     stores = [n for n in grf.nodes if n.kind == 'stmt' and isinstance(n.ast, ast.Assign) and any(
       isinstance(t, ast.Subscript) and isinstance(t.value, ast.Name) and rf.params and t.value.id == rf.params[0] for t in n.ast.targets)]
